@@ -127,6 +127,12 @@ def run_pipeline(case, data, tmpdir, script_override=None, decisions=None, strat
                 o = H.RecObserver(sched, f"obs{i}", timeout=to)
             elif kind == "faulty":
                 o = H.FaultyObserver(sched, f"obs{i}", case.get("observer_dies_at", 1), timeout=to)
+            elif kind == "command":
+                # CommandLineWorker: the command moves the temporary wav it is given into a directory of ours
+                d = os.path.join(tmpdir, f"cmd{i}")
+                os.makedirs(d, exist_ok=True)
+                o = W.CommandLineWorker("mv {file} " + d + "/", timeout=to)
+                o.vf_dir = d
             elif kind == "print":
                 o = W.PrintWorker("{id} {start} {end} {duration}", "%S", timeout=to)
             elif kind == "regionsaver":
